@@ -426,7 +426,8 @@ class GenericContextRegistry(
             nodes = find_connected_nodes(self._active_ctx.graph, src_dim)
             if nodes:
                 for node in nodes:
-                    ret |= self._cache.dimensional_equivalents[node]
+                    # a rule may lead to a dimensionality for which no unit is defined
+                    ret |= self._cache.dimensional_equivalents.get(node, frozenset())
 
         return ret
 
